@@ -367,6 +367,7 @@ class Chapter11(object):
             logger.error("Ch10 Header checksum {:#0X} does not match expected={:#0X}".format(checksum, exp_checksum))
 
         self.relativetimecounter = _rtc_lwr + (_rtc_upr << 32)
+        self.filler = b""
 
         if (self.packetflag >> 7) == 1:
             self.has_secondary_header = True
@@ -405,6 +406,7 @@ class Chapter11(object):
             self.has_secondary_header = False
             self.payload = buffer[Chapter11.CH10_HDR_FORMAT_LEN :]
             self.ts_source = TS_RTC
+            self.ptptime = PTPTime()
 
         return True
 
